@@ -51,7 +51,13 @@ uint32_t VFN(fclose)(VF* f) { struct vf_handle* h = vf_get(f); if (h->open) { h-
 uint64_t VFN(fread)(uint8_t* dst, uint64_t sz, uint64_t n, VF* f) {
   struct vf_handle* h = vf_get(f); struct vf_file* F = &vf_files[h->file];
   uint64_t want = sz * n, avail = h->pos < F->len ? F->len - h->pos : 0, got = want < avail ? want : avail;
+#if defined(VF_BULK_FREAD) && !defined(NATIVE)
+  /* solver model for records of tens of kilobytes: reads of up to 4 bytes (record headers) are delivered; the payload of a larger read is
+     left as it is in the destination - arbitrary as far as the caller can tell - because the obligation is about lengths and positions only */
+  if (got <= 4) for (uint64_t i = 0; i < 4; i++) { if (i < got) dst[i] = F->data[h->pos + i]; }
+#else
   for (uint64_t i = 0; i < got; i++) dst[i] = F->data[h->pos + i];
+#endif
   h->pos += got; if (got < want) h->eof = 1; return sz ? got / sz : 0; }
 uint64_t VFN(fwrite)(uint8_t* src, uint64_t sz, uint64_t n, VF* f) {
   VF_PASS(__real_fwrite(src, sz, n, f));
